@@ -638,6 +638,71 @@ def run(ctx):
             ctx.violation(R, f_init.short, "args=%r" % (kw,),
                           "outcome %r, expected %s before any state is built"
                           % (out[0:2], want))
+    hdr_cls = repo.cls("line.Header")
+
+    class IH(GfaHooks):
+        def construct(self, ev, cls, args, kwargs):
+            if cls is hdr_cls:
+                return Abs(hdr_cls, label="header")
+            return super().construct(ev, cls, args, kwargs)
+
+    # the version and the dialect given explicitly are what the instance
+    # keeps, each whatever the other is
+    for version, dialect in itertools.product([None, "gfa1", "gfa2"],
+                                              ["standard", "rgfa"]):
+        ctx.instance(R)
+        g = Abs(gfacls, label="gfa")
+        out = eval_function(repo, f_init, [g],
+                            {"version": version, "dialect": dialect},
+                            hooks=IH(repo))
+        got = (g.attrs.get("_version", "<unset>"),
+               g.attrs.get("_dialect", "<unset>"),
+               g.attrs.get("_version_guess", "<unset>"))
+        # (what an instance of undeclared version starts from is the
+        # subject of C13.decision / C13.queue, not of this cell)
+        ok = out[0] == "return" and got[1] == dialect and \
+            (version is None or got == (version, dialect, version))
+        ctx.oblige(ok)
+        if not ok:
+            ctx.violation(R, f_init.short,
+                          "version=%r,dialect=%r" % (version, dialect),
+                          "outcome %r leaves (_version, _dialect, "
+                          "_version_guess) = %r: a version given explicitly "
+                          "is the one every later line is checked against"
+                          % (out[0:2], got))
+    f_ff = ctx.anchor("Gfa.from_file", gfacls.find_method("from_file"))
+
+    class FFH(GfaHooks):
+        def construct(self, ev, cls, args, kwargs):
+            if cls is gfacls:
+                ev.events.append(("Gfa", tuple(args), dict(kwargs)))
+                return Abs(gfacls, label="gfa")
+            return super().construct(ev, cls, args, kwargs)
+
+        def method(self, ev, base, name, args, kwargs, node):
+            if isinstance(base, Abs) and base.label == "gfa" and \
+                    name == "read_file":
+                ev.events.append(("read_file",) + tuple(args))
+                return None
+            return super().method(ev, base, name, args, kwargs, node)
+    for version, dialect in itertools.product([None, "gfa1", "gfa2"],
+                                              ["standard", "rgfa"]):
+        ctx.instance(R)
+        out = eval_function(repo, f_ff, [gfacls, "file.gfa"],
+                            {"version": version, "dialect": dialect,
+                             "vlevel": 2}, hooks=FFH(repo))
+        made = [e for e in out[2] if e[0] == "Gfa"]
+        ok = out[0] == "return" and len(made) == 1 and not made[0][1] and \
+            made[0][2] == {"version": version, "dialect": dialect,
+                           "vlevel": 2} and \
+            ("read_file", "file.gfa") in out[2]
+        ctx.oblige(ok)
+        if not ok:
+            ctx.violation(R, f_ff.short,
+                          "version=%r,dialect=%r,vlevel=2" % (version, dialect),
+                          "outcome %r, Gfa built with %r: from_file hands its "
+                          "version, dialect and vlevel to Gfa() as given"
+                          % (out[0:2], made))
     hdr = repo.cls("line.Header")
     for name, want in (("_to_gfa1_a", "VN:Z:1.0"), ("_to_gfa2_a", "VN:Z:2.0")):
         ctx.instance(R)
